@@ -65,3 +65,17 @@ let handle (x : t) : (int * string list) option =
   | L [I 13; ps; v; ds] -> Some (cmd_shutdown ps v ds)
   | L [I 13; _] -> Some (0, [])
   | _ -> handle x
+
+(* (15 kind (untyped objs) (typed ids))  the typed cache = typed_list *)
+let cmd_typed kind objs ids =
+  let objs = d_list d_obj objs in
+  let ids = List.sort compare (d_list d_int ids) in
+  let m = List.sort compare (List.map (fun o -> int_of_n o.o_id) (typed_list (d_n kind) objs)) in
+  if m = ids then (List.length objs, [])
+  else (List.length objs, [Printf.sprintf "kind=typedview impl=[%s] model=[%s]"
+                             (String.concat "," (List.map string_of_int ids)) (String.concat "," (List.map string_of_int m))])
+
+let handle (x : t) : (int * string list) option =
+  match x with
+  | L [I 15; k; objs; ids] -> Some (cmd_typed k objs ids)
+  | _ -> handle x
